@@ -268,6 +268,11 @@ namespace AIToolbox::MDP {
         rewards_.setZero();
 
         if ( toSync ) {
+            // Eigen does not zero-initialize matrices, and sync() only
+            // writes the rows of state-action pairs which have been seen.
+            for ( size_t a = 0; a < A; ++a )
+                transitions_[a].setZero();
+
             sync();
             // Sync does not touch state-action pairs which have never been
             // seen. To keep the model consistent we set all of them as
